@@ -420,6 +420,11 @@ def drawing_record(backend, tl, doc, opts, data, kind):
                 f = "<formatter failed>"
             tk.append({"t": tproj(t), "civ": [t.year, t.month, t.day, t.isoweekday() % 7, t.hour, t.minute, t.second], "fmt": f})
     rec["tickvals"] = tk
+    if kind != "linear":
+        # the drawn tick texts cut into number and word tokens (TLC checks that every token names a field of the tick's instant)
+        for t in rec["ticks"]:
+            t["nums"] = [int(x) for x in re.findall(r"\d+", t["text"])][:8]
+            t["words"] = [w.lower() for w in re.findall(r"[^\W\d_]+", t["text"])][:8]
     if kind == "linear":
         step = (float(ticks_src[1]) - float(ticks_src[0])) if len(ticks_src) >= 2 else 1.0
         for t in tk:
